@@ -19,9 +19,13 @@ inductive Err where
   | type         -- operand of the wrong type (ill-typed program; excluded by semantic analysis)
   | unsupported  -- outside the modelled subset
   | name         -- unknown dataset / component
+  | unstable     -- exact result sits on a rounding boundary that binary floating point cannot decide
+                 -- (the harness does not compare such cases; never produced for exact operators)
   deriving DecidableEq, Repr, Inhabited
 
 abbrev R := Except Err
+
+deriving instance DecidableEq for Except
 
 namespace Value
 
@@ -79,19 +83,34 @@ def vdiv : Value → Value → R Value
               | .null => (match a with | .str _ | .bool _ => .error .type | _ => .ok .null)
               | _ => .error .type
 
-/-- truncated remainder (sign of the dividend), `mod(x, 0) = x` as VTL defines. -/
+/-- truncated remainder (sign of the dividend); the zero-divisor case is handled by `vmod`. -/
 def ratMod (a b : Rat) : Rat :=
   if b = 0 then a else
     let q := a / b
     let t : Int := if q < 0 then -((-q).floor) else q.floor
     a - b * t
 
+/-- `mod`: adopted behaviour (DESIGN §4 C01): remainder of the truncated division (sign of the
+dividend) and a null result for a zero divisor, as the engine computes it; the VTL text is not
+available offline to arbitrate `mod(x, 0)`. -/
+def isPow2 : Nat → Nat → Bool
+  | 0, _ => false
+  | _, 0 => false
+  | _, 1 => true
+  | fuel + 1, n => n % 2 == 0 && isPow2 fuel (n / 2)
+
+/-- exactly representable in binary floating point (denominator a power of two). -/
+def dyadic (q : Rat) : Bool := isPow2 (q.den + 1) q.den
+
 def vmod : Value → Value → R Value
   | .null, _ => .ok .null
   | _, .null => .ok .null
-  | .int a, .int b => .ok (.int (if b = 0 then a else Int.tmod a b))
+  | .int a, .int b => .ok (if b = 0 then .null else .int (Int.tmod a b))
   | a, b => match a.toRat?, b.toRat? with
-            | some x, some y => .ok (.num (ratMod x y))
+            | some x, some y =>
+                if y = 0 then .ok .null
+                else if !(dyadic x && dyadic y) then .error .unstable
+                else .ok (.num (ratMod x y))
             | _, _ => .error .type
 
 /-! ### Comparison -/
@@ -279,10 +298,15 @@ def between (x lo hi : Value) : R Value := do
     | _, _ => pure .null
 
 /-- SQL `IN` over a literal list: true if some element equals, else null if x or an element is null. -/
+def veq (a b : Value) : Bool :=
+  match a.toRat?, b.toRat? with
+  | some x, some y => x == y
+  | _, _ => a == b
+
 def vin (x : Value) (xs : List Value) : R Value :=
   match x with
   | .null => .ok .null
-  | _ => if xs.contains x then .ok (.bool true)
+  | _ => if xs.any (veq x) then .ok (.bool true)
          else if xs.contains .null then .ok .null else .ok (.bool false)
 
 def vnotin (x : Value) (xs : List Value) : R Value := do not3 (← vin x xs)
@@ -328,6 +352,13 @@ def replace (s pat rep : Value) : R Value :=
   | .str a, .str p, .str r => .ok (.str (String.ofList (replaceL p.toList r.toList (a.length + 1) a.toList)))
   | _, _, _ => .error .type
 
+/-- `q * 10^k` (or `+ 1/2` for rounding) is an exact integer although `q` is not a binary fraction:
+the engine computes on IEEE doubles there and may land on either side. -/
+def onBoundary (trunc : Bool) (q : Rat) (k : Int) : Bool :=
+  let scale : Rat := if k ≥ 0 then pow10 k.toNat else 1 / pow10 (-k).toNat
+  let x := if trunc then q * scale else q * scale + 1/2
+  !(dyadic q) && x.den == 1
+
 def roundV (trunc : Bool) (x n : Value) : R Value :=
   match x with
   | .null => .ok .null
@@ -336,6 +367,7 @@ def roundV (trunc : Bool) (x n : Value) : R Value :=
     | none => .error .type
     | some q =>
       let k : Int := match n with | .int i => i | _ => 0
-      .ok (.num (if trunc then ratTrunc q k else ratRound q k))
+      if onBoundary trunc q k then .error .unstable
+      else .ok (.num (if trunc then ratTrunc q k else ratRound q k))
 
 end VtlModel.Sem
